@@ -142,3 +142,52 @@ Proof.
   unfold query_flows. apply filter_ext_in'. intros f _. unfold flow_is_match.
   rewrite (String.eqb_sym name (f_name f)). reflexivity.
 Qed.
+
+(* ---------------------------------------------------------------- flow adjustments restricted by source / destination strata *)
+(* an adjustment request (adjustments, source filter, destination filter) declared for the flow's name applies to the flow
+   iff its source filter holds at the flow's source and its destination filter at the flow's destination - each end on
+   its own, a missing end never excluding the flow *)
+Definition request_selects (f : flow) (e : fadj_entry) : Prop :=
+  selects_flow (f_name f) (snd (fst e)) (snd e) f.
+
+Lemma fadj_applies_spec f e : fadj_applies f e = true <-> request_selects f e.
+Proof.
+  unfold fadj_applies, request_selects, selects_flow. destruct e as [[a sf] df]. cbn [fst snd].
+  rewrite andb_true_iff, !opt_has_strata_spec. split; [intros [H1 H2]; repeat split; assumption | intros [_ [H1 H2]]; split; assumption].
+Qed.
+
+Lemma last_some_map_spec {A B} (p : A -> bool) (g : A -> B) (l : list A) :
+  match last_some (map (fun e => if p e then Some (g e) else None) l) with
+  | Some b => exists pre e post, l = pre ++ e :: post /\ p e = true /\ g e = b /\ forallb (fun x => negb (p x)) post = true
+  | None => forallb (fun x => negb (p x)) l = true
+  end.
+Proof.
+  induction l as [|h t IH]; [reflexivity|]. cbn [map last_some].
+  destruct (last_some (map (fun e => if p e then Some (g e) else None) t)) as [b|] eqn:E.
+  - destruct IH as (pre & e & post & -> & Hp & Hg & Hn). exists (h :: pre), e, post. repeat split; assumption.
+  - destruct (p h) eqn:Eh.
+    + exists [], h, t. repeat split; [exact Eh | exact IH].
+    + cbn [forallb]. rewrite Eh. exact IH.
+Qed.
+
+(* Stratification.get_flow_adjustment: of the requests declared for the flow's name, in declaration order, the LAST one
+   that selects the flow decides; requests that do not select it - earlier or later, whatever filters they share with
+   the one that does - play no part; none selecting it means no adjustment *)
+Theorem adjustment_selection s f r :
+  get_flow_adjustment s f = Ok r ->
+  match r with
+  | Some a => exists pre e post, declared_for s (f_name f) = pre ++ e :: post /\ request_selects f e /\ fst (fst e) = a
+                                 /\ Forall (fun x => ~ request_selects f x) post
+  | None => Forall (fun x => ~ request_selects f x) (declared_for s (f_name f))
+  end.
+Proof.
+  unfold get_flow_adjustment. destruct (existsb _ _); [discriminate|]. intro H. injection H as <-.
+  pose proof (last_some_map_spec (fadj_applies f) (fun e : fadj_entry => fst (fst e)) (declared_for s (f_name f))) as L.
+  assert (N : forall l, forallb (fun x => negb (fadj_applies f x)) l = true -> Forall (fun x => ~ request_selects f x) l).
+  { intros l Hl. apply Forall_forall. intros x Hx. rewrite forallb_forall in Hl. specialize (Hl x Hx).
+    rewrite <- fadj_applies_spec. destruct (fadj_applies f x); [discriminate | intro K; discriminate]. }
+  destruct (last_some _) as [a|].
+  - destruct L as (pre & e & post & E & Hp & Hg & Hn). exists pre, e, post.
+    split; [exact E|]. split; [apply fadj_applies_spec; exact Hp|]. split; [exact Hg|]. apply N. exact Hn.
+  - apply N. exact L.
+Qed.
